@@ -27,7 +27,7 @@ package compat
 
 // err below is the standard codec's verdict (the local holding the delegate's result).
 //@ contract (*RepairUTF8Codec).Unmarshal
-//@   shape sig=(c *RepairUTF8Codec)(data mem.BufferSlice,v any)( error);loops=;lits=0
+//@   shape sig=(c *RepairUTF8Codec)(data mem.BufferSlice,v any)( error);loops=;lits=0;fv=
 //@   props C17
 //@   requires c != nil && c.CodecParams != nil
 //@   callpre convertAndRepairInvalidUTF8: @only_on_invalid_utf8: common.IsInvalidUTF8Error(err)
@@ -54,7 +54,7 @@ package compat
 //@   ensures result == nil ==> m.resetFrom == base(data)
 //@   assigns *, m.resetFrom
 //@ contract convertAndRepairInvalidUTF8
-//@   shape sig=(data []byte,v any)( error);loops=;lits=0
+//@   shape sig=(data []byte,v any)( error);loops=;lits=0;fv=
 //@   props C17
 //@   ensures @target_is_exactly_the_repaired_decode: result == nil ==> cast(v, "common.Marshaler").resetFrom == base(repaired)
 //@   callpre Unmarshal.2: @after_successful_repair: changed && err == nil && ok && msg122 != nil
@@ -68,7 +68,7 @@ package compat
 //@ axiom @to_valid_is_valid: forall s string, r string :: { strings.ToValidUTF8(s, r) } utf8.ValidString(r) ==> utf8.ValidString(strings.ToValidUTF8(s, r))
 //@ axiom @replacement_is_valid: utf8.ValidString(replacementCharacter)
 //@ contract repairInvalidUTF8InFailure
-//@   shape sig=(failure *failure.Failure)( bool, error);loops=for3;lits=0
+//@   shape sig=(failure *failure.Failure)( bool, error);loops=for3;lits=0;fv=
 //@   props C17 C18
 // every failure the walk leaves behind has a valid message (a message is skipped only when it already is valid),
 // and what is written is exactly the standard repair of what was there
@@ -83,12 +83,12 @@ package compat
 // legacy message type of the SAME name as the message they are given (the two schemas share field numbers per type;
 // a neighbouring type would silently drop the fields it does not know).
 //@ contract frontendConvertTo122
-//@   shape sig=(vAny any)( common.Marshaler, bool);loops=;lits=0
+//@   shape sig=(vAny any)( common.Marshaler, bool);loops=;lits=0;fv=
 //@   props C17
 //@   ensures @same_message_type: result1 ==> result0 != nil && typename(result0) == typename(vAny)
 //@   ensures @unknown_type: !result1 ==> result0 == nil
 //@ contract adminConvertTo122
-//@   shape sig=(vAny any)( common.Marshaler, bool);loops=;lits=0
+//@   shape sig=(vAny any)( common.Marshaler, bool);loops=;lits=0;fv=
 //@   props C17
 //@   ensures @same_message_type: result1 ==> result0 != nil && typename(result0) == typename(vAny)
 //@   ensures @unknown_type: !result1 ==> result0 == nil
